@@ -207,31 +207,38 @@ Theorem c14_srv_unsub_always_acks : forall chan s c parts d r s',
   r = FNoResponse /\ d <> [] \/ (exists l, tl parts = l /\ all_bulk l = Some [] /\ l <> []).
 Proof. exact unsub_step_always_acks. Qed.
 
-(** 12. after a connection is torn down (its subscriptions go with it) nothing is written to it,
-    whatever the other connections do, until the id connects again.
-    The same for a connection that closes (QUIT, EOF, protocol error) holds only if it has no
-    subscription at that moment: otherwise it lingers with its subscriptions - class closing-leak
-    (c14_closing_leak_refuted; fix proposed in patches/pubsub-closing-cleanup.diff). *)
-Theorem c14_srv_after_disconnect_nothing : forall now s c h,
-  SrvInv s -> Forall (not_by c) h -> stream_of c (fst (sev_run now (del_conn s c) h)) = [].
-Proof. exact after_drop_nothing. Qed.
+(** 12. after unsubscribing or disconnecting nothing more is received.  Any disconnect - the
+    client closes its socket, sends QUIT, violates the protocol (the connection is Closing and
+    cleanup_connections removes it at the end of the loop iteration: EClose) or is torn down after a
+    read / write failure (EDrop) - removes the connection together with its subscriptions (after the
+    repair 4bdfa3e, which dropped the skip of still-subscribed Closing connections), and from then
+    on nothing is written to it, whatever the other connections do, until the id connects again. *)
+Theorem c14_srv_after_disconnect_nothing : forall now s c e h,
+  SrvInv s -> disconnects c e -> Forall (not_by c) h ->
+  stream_of c (fst (sev_run now s (e :: h))) = [].
+Proof. exact after_disconnect_nothing. Qed.
 
+(** ... and it is no longer counted: the state after the disconnect has no subscription of c *)
+Theorem c14_srv_disconnect_unsubscribes : forall s c,
+  unsubscribed (s_pubsub (close_conn s c)) c /\ unsubscribed (s_pubsub (del_conn s c)) c /\
+  has_conn (close_conn s c) c = false.
+Proof.
+  intros s c. split; [|split]; try (cbn [close_conn del_conn s_pubsub]; apply unsubscribed_after_all).
+  unfold close_conn. rewrite has_conn_del_conn, Z.eqb_refl. reflexivity.
+Qed.
+
+(** the same for a connection that merely has no subscription left *)
 Theorem c14_srv_after_gone_nothing : forall now c h s,
   SrvInv s -> unsubscribed (s_pubsub s) c -> Forall (not_by c) h ->
   stream_of c (fst (sev_run now s h)) = [].
 Proof. exact after_gone_nothing. Qed.
 
-Theorem c14_closing_leak_refuted :
-  exists h, Forall (not_by 1) (tl (tl (tl h))) /\
-    let s := snd (sev_run 0 (init_server None) (firstn 4 h)) in
-    has_conn s 1 = true /\
-    stream_of 1 (fst (sev_run 0 s (skipn 4 h))) = [msg_frame (bs "ch") (bs "m")].
-Proof.
-  exists [EConnect 1; EConnect 2; EReq 1 (FArray [FBulk (bs "SUBSCRIBE"); FBulk (bs "ch")]); EClose 1;
-          EReq 2 (publish_req (bs "ch") (bs "m"))].
-  split; [|vm_compute; split; reflexivity].
-  repeat constructor; simpl; discriminate.
-Qed.
+(** the former closing-leak witness: SUBSCRIBE ch; the client closes; PUBLISH ch m reaches nobody *)
+Example c14_closing_cleanup_witness :
+  let h := [EConnect 1; EConnect 2; EReq 1 (FArray [FBulk (bs "SUBSCRIBE"); FBulk (bs "ch")]); EClose 1;
+            EReq 2 (publish_req (bs "ch") (bs "m"))] in
+  stream_of 2 (fst (sev_run 0 (snd (sev_run 0 (init_server None) (firstn 4 h))) (skipn 4 h))) = [FInt 0].
+Proof. vm_compute. reflexivity. Qed.
 
 (** 13. requests that are not pub/sub commands behave exactly as in the single-reply model on which
     C05, C07, C08, C17, C18 are stated *)
